@@ -530,3 +530,58 @@ Definition is_nil_list (v : nilable) : bool := match v with NilList => true | _ 
 Definition tx_has_nil_list (t : tx) : bool :=
   is_nil_list (t_depends t) || existsb (fun c => is_nil_list (c_to c)) (t_clauses t).
 Definition block_has_nil_list (b : block) : bool := existsb tx_has_nil_list (b_txs b).
+
+(* ------------------------------------------------------------------ Size() caching paths *)
+Definition list_size (n : N) : N := lenN (enc_len 192 n) + n.                       (* rlp.ListSize(contentSize) *)
+(* Transaction.DecodeRLP: cache.size = ListSize(size) for a legacy list, len(payload) for a typed envelope *)
+Definition go_tx_size_cached (b : bytes) : N :=
+  match shead b with Some (KList, p, _) => list_size (lenN p) | Some (KStr, s, _) => lenN s | _ => 0 end.
+(* Block.DecodeRLP / RawBlock.DecodeRLP: `_, size, _ := s.Kind()`; cache.size = ListSize(size) *)
+Definition go_block_size_cached (b : bytes) : N :=
+  match shead b with Some (_, p, _) => list_size (lenN p) | None => 0 end.
+(* Size() with an empty cache: the length of what rlp.Encode writes (+ the type byte for typed txs) *)
+Definition go_tx_size_fresh (t : tx) : N := lenN (go_marshal_tx t).
+Definition go_block_size_fresh (b : block) : N := lenN (go_reencode_block b).
+
+(* ------------------------------------------------------------------ tx.IntrinsicGas (transaction.go), uint64 with overflow checks *)
+Definition u64max1 : N := 18446744073709551616.
+Definition safe_add (a b : N) : option N := if a + b <? u64max1 then Some (a + b) else None.   (* math.SafeAdd *)
+Definition safe_mul (a b : N) : option N := if a * b <? u64max1 then Some (a * b) else None.   (* math.SafeMul *)
+Definition count_zero (d : bytes) : N := lenN (filter (fun x => x =? 0) d).
+Definition data_gas (d : bytes) : option N :=
+  match d with
+  | [] => Some 0
+  | _ => let z := count_zero d in let nz := lenN d - z in
+         match safe_mul 4 z, safe_mul 68 nz with
+         | Some a, Some b => safe_add a b
+         | _, _ => None end
+  end.
+Definition is_nil (v : nilable) : bool := match v with Ptr _ => false | _ => true end.
+Definition clause_gas (c : clause) : N := if is_nil (c_to c) then 48000 else 16000.  (* contract creation / call *)
+Fixpoint intrinsic_loop (cl : list clause) (total : N) : option N :=
+  match cl with
+  | [] => Some total
+  | c :: t => match data_gas (c_data c) with
+              | None => None
+              | Some g => match safe_add total g with
+                          | None => None
+                          | Some t1 => match safe_add t1 (clause_gas c) with
+                                       | None => None
+                                       | Some t2 => intrinsic_loop t t2 end end end
+  end.
+Definition intrinsic_gas (cl : list clause) : option N :=
+  match cl with [] => Some 21000 | _ => intrinsic_loop cl 5000 end.
+(* the same quantity over unbounded integers *)
+Definition data_gas_math (d : bytes) : N := 4 * count_zero d + 68 * (lenN d - count_zero d).
+Fixpoint clauses_gas_math (cl : list clause) : N :=
+  match cl with [] => 0 | c :: t => data_gas_math (c_data c) + clause_gas c + clauses_gas_math t end.
+Definition intrinsic_gas_math (cl : list clause) : N :=
+  match cl with [] => 21000 | _ => 5000 + clauses_gas_math cl end.
+
+(* ------------------------------------------------------------------ trie.DeriveRoot: key/value pairs handed to the trie *)
+(* key_i = drlp.AppendUint(i) = rlp(uint64 i), value_i = EncodeIndex(i) = MarshalBinary of the i-th element *)
+Fixpoint root_pairs_from (i : N) (vals : list bytes) : list (bytes * bytes) :=
+  match vals with [] => [] | v :: t => (enc (c_uint 8) i, v) :: root_pairs_from (i + 1) t end.
+Definition root_pairs (vals : list bytes) : list (bytes * bytes) := root_pairs_from 0 vals.
+Definition txs_root_pairs (txs : list tx) : list (bytes * bytes) := root_pairs (map go_marshal_tx txs).
+Definition receipts_root_pairs (rs : list receipt) : list (bytes * bytes) := root_pairs (map go_marshal_receipt rs).
